@@ -1,3 +1,77 @@
-From TT Require Import Lib.BytesL.
-Theorem placeholder : True. Proof. exact I. Qed.
-Print Assumptions placeholder.
+(* C06 — UDP multiplexer wire codec is exact, segmentation-invariant and resynchronising.
+   Statements only; proofs live in Proofs/UdpCodecProofs.v. *)
+From Coq Require Import List NArith.
+From TT Require Import Lib.Res Lib.BytesL Model.UdpCodec Spec.UdpWire Proofs.UdpCodecProofs.
+Import ListNotations.
+Open Scope N_scope.
+
+(* Full statement. For every sequence of records (accepted or not: classify decides), every
+   incomplete trailing record t and EVERY segmentation of their concatenation into chunks, the
+   decoder (the model of decode_chunk + the re-queue loop, started in its initial state) neither
+   panics nor runs out of fuel and delivers exactly the datagrams PROTOCOL.md 6.3 assigns to the
+   accepted records, in order; rejected records are skipped whole (resynchronisation). *)
+Theorem decode_segmentation_invariant :
+  forall (bodies : list (list N)) (t : list N) (chunks : list (list N)),
+    Forall body_ok bodies -> incomplete t ->
+    concat chunks = concat (map frame bodies) ++ t ->
+    exists d' outs, run dec_init chunks = Ok (d', outs) /\ concat outs = classify_all bodies.
+Proof. exact decode_segmentation_invariant_proof. Qed.
+Print Assumptions decode_segmentation_invariant.
+
+(* ... and every byte string is such a concatenation, so the theorem above covers all streams *)
+Theorem stream_decomposes :
+  forall s, bytes_ok s = true ->
+    exists bodies t, s = concat (map frame bodies) ++ t /\ Forall body_ok bodies /\ incomplete t.
+Proof. exact stream_decomposes_proof. Qed.
+Print Assumptions stream_decomposes.
+
+(* Any two segmentations of the same bytes give the same datagrams and the same decoder state *)
+Theorem two_segmentations_agree :
+  forall c1 c2, concat c1 = concat c2 ->
+    exists d o1 o2, run dec_init c1 = Ok (d, o1) /\ run dec_init c2 = Ok (d, o2)
+                    /\ concat o1 = concat o2.
+Proof. exact two_segmentations_agree_proof. Qed.
+Print Assumptions two_segmentations_agree.
+
+(* No assert!/unwrap/underflow of the decoder is reachable, and the loop terminates within the
+   model's fuel, for every input whatsoever *)
+Theorem decoder_total : forall chunks, exists r, run dec_init chunks = Ok r.
+Proof. exact decoder_total_proof. Qed.
+Print Assumptions decoder_total.
+
+(* the executable oracle used by the correspondence run is the relational specification *)
+Theorem spec_oracle_is_spec :
+  forall bodies t, Forall body_ok bodies -> incomplete t ->
+    spec_decode_stream (concat (map frame bodies) ++ t) = classify_all bodies.
+Proof. exact spec_decode_stream_frames. Qed.
+Print Assumptions spec_oracle_is_spec.
+
+(* 6.4: datagrams to the client (depends on the regenerated constants: 36-byte header, 12-byte
+   IPv4 padding) *)
+Theorem encode_layout :
+  forall s t payload, encode_packet s t payload = spec_encode s t payload.
+Proof. exact encode_packet_spec. Qed.
+Print Assumptions encode_layout.
+
+(* Non-vacuity: a rejected record (L = 0), a record with empty name and payload, an accepted
+   record from ::1, cut in the middle of a header. *)
+Definition ex_v4 : list N := [0;0;0;0;0;0;0;0;0;0;0;0;1;2;3;4].
+Definition ex_lo : list N := [0;0;0;0;0;0;0;0;0;0;0;0;0;0;0;1].
+Definition ex_body1 : list N := ex_v4 ++ [3;232] ++ ex_v4 ++ [0;53] ++ [0].
+Definition ex_body2 : list N := ex_lo ++ [3;232] ++ ex_v4 ++ [0;53] ++ [1;97] ++ [104;105].
+Example ex_stream_classified :
+  classify_all [[]; ex_body1; ex_body2] =
+  [ {| d_src := {| sip := {| fam := 4; ipv := 16909060 |}; sport := 1000 |};
+       d_dst := {| sip := {| fam := 4; ipv := 16909060 |}; sport := 53 |};
+       d_app := Some []; d_payload := [] |};
+    {| d_src := {| sip := {| fam := 6; ipv := 1 |}; sport := 1000 |};
+       d_dst := {| sip := {| fam := 4; ipv := 16909060 |}; sport := 53 |};
+       d_app := Some [97]; d_payload := [104; 105] |} ].
+Proof. vm_compute. reflexivity. Qed.
+Example ex_run_cut :
+  let s := concat (map frame [[]; ex_body1; ex_body2]) in
+  match run dec_init [takeN 20 s; dropN 20 s] with
+  | Ok (_, outs) => concat outs = classify_all [[]; ex_body1; ex_body2]
+  | _ => False
+  end.
+Proof. vm_compute. reflexivity. Qed.
